@@ -761,3 +761,79 @@ theorem fieldσ_bounds (σ : Store) (body new : List Ast) (f : Nat) (hF : f < σ
   exact unmakeList_kills body σ y hyo
 
 end Pfst.Links
+
+/-! ## operations that only empty caches -/
+namespace Pfst.Links
+
+/-- `σ'` differs from `σ` at most in cache contents -/
+def CacheOnly (σ σ' : Store) : Prop :=
+  σ'.astF = σ.astF ∧ σ'.next = σ.next ∧
+    ∀ g, (σ'.fst g).a = (σ.fst g).a ∧ (σ'.fst g).parent = (σ.fst g).parent ∧ (σ'.fst g).pfield = (σ.fst g).pfield
+
+theorem CacheOnly.refl (σ : Store) : CacheOnly σ σ := ⟨rfl, rfl, fun _ => ⟨rfl, rfl, rfl⟩⟩
+
+theorem CacheOnly.trans {σ σ' σ'' : Store} (h1 : CacheOnly σ σ') (h2 : CacheOnly σ' σ'') : CacheOnly σ σ'' :=
+  ⟨h2.1.trans h1.1, h2.2.1.trans h1.2.1, fun g =>
+    ⟨(h2.2.2 g).1.trans (h1.2.2 g).1, (h2.2.2 g).2.1.trans (h1.2.2 g).2.1, (h2.2.2 g).2.2.trans (h1.2.2 g).2.2⟩⟩
+
+theorem touch_cacheOnly (σ : Store) (f : Nat) : CacheOnly σ (touch σ f) := by
+  refine ⟨rfl, rfl, fun g => ?_⟩
+  simp only [touch, upd]
+  split
+  · next e => subst e; exact ⟨rfl, rfl, rfl⟩
+  · exact ⟨rfl, rfl, rfl⟩
+
+theorem touchAst_cacheOnly (σ : Store) (a : Nat) : CacheOnly σ (touchAst σ a) := by
+  unfold touchAst
+  split
+  · exact touch_cacheOnly σ _
+  · exact CacheOnly.refl σ
+
+mutual
+theorem touchTree_cacheOnly : ∀ (t : Ast) (σ : Store), CacheOnly σ (touchTree σ t)
+  | .mk a _ _ kids, σ => by
+    simp only [touchTree]
+    exact (touchAst_cacheOnly σ a).trans (touchTreeList_cacheOnly kids _)
+theorem touchTreeList_cacheOnly : ∀ (l : List Ast) (σ : Store), CacheOnly σ (touchTreeList σ l)
+  | [], σ => by simp only [touchTreeList]; exact CacheOnly.refl σ
+  | k :: rest, σ => by
+    simp only [touchTreeList]
+    exact (touchTree_cacheOnly k σ).trans (touchTreeList_cacheOnly rest _)
+end
+
+theorem touchParents_cacheOnly : ∀ (fuel : Nat) (σ : Store) (f : Nat), CacheOnly σ (touchParents σ fuel f)
+  | 0, σ, _ => by simp only [touchParents]; exact CacheOnly.refl σ
+  | fuel + 1, σ, f => by
+    simp only [touchParents]
+    split
+    · exact CacheOnly.refl σ
+    · next p _ => exact (touch_cacheOnly σ p).trans (touchParents_cacheOnly fuel _ p)
+
+theorem touchall_cacheOnly (σ : Store) (f : Nat) (t : Ast) (p sf c : Bool) : CacheOnly σ (touchall σ f t p sf c) := by
+  have h1 : CacheOnly σ (if c then (if sf then touchTree σ t else touchTreeList σ t.kids)
+      else if sf then touch σ f else σ) := by
+    cases c <;> cases sf <;> simp only [if_true, if_false, Bool.false_eq_true]
+    · exact CacheOnly.refl σ
+    · exact touch_cacheOnly σ f
+    · exact touchTreeList_cacheOnly _ σ
+    · exact touchTree_cacheOnly t σ
+  simp only [touchall]
+  cases p <;> simp only [if_true, if_false, Bool.false_eq_true]
+  · exact h1
+  · exact h1.trans (touchParents_cacheOnly _ _ f)
+
+mutual
+theorem linkedB_cacheOnly {σ σ' : Store} (h : CacheOnly σ σ') : ∀ (t : Ast) (pf : Option Nat),
+    linkedB σ' pf t = linkedB σ pf t
+  | .mk a _ fld kids, pf => by
+    simp only [linkedB, h.1]
+    cases σ.astF a with
+    | none => rfl
+    | some f => simp only [(h.2.2 f).1, (h.2.2 f).2.1, (h.2.2 f).2.2, linkedListB_cacheOnly h kids (some f)]
+theorem linkedListB_cacheOnly {σ σ' : Store} (h : CacheOnly σ σ') : ∀ (l : List Ast) (pf : Option Nat),
+    linkedListB σ' pf l = linkedListB σ pf l
+  | [], _ => rfl
+  | k :: rest, pf => by simp only [linkedListB, linkedB_cacheOnly h k pf, linkedListB_cacheOnly h rest pf]
+end
+
+end Pfst.Links
